@@ -430,16 +430,25 @@ class Model:
 
 
 def configs(tier: str) -> list[dict[str, Any]]:
+    """Quick: two names, capacity <= 2, depth 4 (3 for the file-backed loaders, whose states also carry how each entry
+    was loaded). Thorough: the same configurations all at depth 4, plus three names with capacity 3 at depth 3 and the
+    smallest configuration at depth 5 (each configuration carries its own depth bound in `depth`)."""
     out = []
-    caps = (1, 2) if tier == "quick" else (1, 2, 3)
-    names = ("n1", "n2") if tier == "quick" else ("n1", "n2", "n3")
+    names = ("n1", "n2")
     for loader in ("dict", "fs", "choice"):
-        for cap in caps:
+        for cap in (1, 2):
             for ar in (True, False):
                 for nsmode in ("none", "kwarg", "global"):
                     if tier == "quick" and loader == "choice" and nsmode != "none":
                         continue
                     out.append({"loader": loader, "capacity": cap, "auto_reload": ar, "nsmode": nsmode, "names": names})
+    if tier != "quick":
+        for loader in ("dict", "fs", "choice"):
+            for ar in (True, False):
+                for nsmode in ("none", "kwarg"):
+                    out.append({"loader": loader, "capacity": 3, "auto_reload": ar, "nsmode": nsmode, "names": ("n1", "n2", "n3"), "depth": 3})
+        out.append({"loader": "dict", "capacity": 1, "auto_reload": True, "nsmode": "none", "names": names[:1], "depth": 6})
+        out.append({"loader": "dict", "capacity": 2, "auto_reload": True, "nsmode": "none", "names": names, "depth": 5})
     # variants (each explores one more dimension on one small configuration)
     out.append({"loader": "matter", "capacity": 2, "auto_reload": True, "nsmode": "none", "names": names[:2]})  # sources with front matter
     out.append({"loader": "dict", "capacity": 2, "auto_reload": True, "nsmode": "none", "names": names[:2], "whos": (1, True, 1.0)})  # equal but different globals
@@ -465,7 +474,7 @@ def alphabet_for(cfg: dict[str, Any], tier: str) -> list[tuple]:
         modes, nss = ("include", "include-async"), (None, "x", "y")
         if cfg.get("shadowed_key"):
             modes = ("include", "include-async", "include-shadow", "include-shadow-async")
-    whos = cfg.get("whos") or (WHO if tier != "quick" else (None, "alice"))
+    whos = cfg.get("whos") or (None, "alice")
     nss = cfg.get("nss") or nss
     if cfg["loader"] in ("fs2", "matter"):
         modes = ("sync", "async")  # (front matter belongs to a template rendered on its own, not to an included one)
@@ -687,12 +696,16 @@ def plan(tier: str, seed: int):
     cfgs = configs(tier)
     depth = 4
     # (quick tier: the file-backed configurations, whose states also carry how each entry was loaded, go to depth 3)
-    shards: list[Any] = [("bfs", tier, i, 3 if tier == "quick" and c["loader"] in ("fs", "fs2") else depth) for i, c in enumerate(cfgs)]
+    shards: list[Any] = [("bfs", tier, i, c.get("depth") or (3 if tier == "quick" and c["loader"] in ("fs", "fs2") else depth)) for i, c in enumerate(cfgs)]
+    # (the largest state spaces first: the run is as long as its longest shard)
+    shards.sort(key=lambda sh: (-sh[3], cfgs[sh[2]]["loader"] not in ("fs", "fs2")))
     sched_cfgs = [c for c in cfgs if c["capacity"] == 2 and c["auto_reload"] and c["nsmode"] in ("none", "kwarg") and c["loader"] in ("dict", "fs") and "nss" not in c and "whos" not in c]
     nsets = 0
     for ci, c in enumerate(cfgs):
         if c in sched_cfgs:
-            for si, _ in enumerate(schedule_jobs(tier)):
+            for si, js in enumerate(schedule_jobs(tier)):
+                if len(js) == 3 and c["loader"] != "dict":
+                    continue  # (three jobs over the file-backed loader: millions of schedules; pairs are exhaustive there)
                 shards.append(("sched", tier, ci, si))
                 nsets += 1
     meta = {
